@@ -220,8 +220,23 @@ def s_range(*a):
             if ctx().decide(n.t <= 0):
                 return []
             n = SymInt(n.t, 1, n.hi)
+        if n.hi - n.lo + 1 > 300:
+            n.tighten()
+        if n.hi - n.lo + 1 > 300:
+            return _lazy_range(start, n)
         n = n.concretize(limit=4096)
     return [start + i for i in _b.range(_b.max(n, 0))]
+
+
+def _lazy_range(start, n):
+    """iteration count decided one step at a time (each step forks on `i < n`): usable when the
+    loop body fails or finishes long before a large symbolic count is reached"""
+    i = 0
+    while ctx().decide(n.t > i):
+        yield start + i
+        i += 1
+        if i > 20000:
+            raise Unsupported("symbolic range did not end within 20000 iterations")
 
 
 def s_sum(xs, start=0):
